@@ -141,6 +141,13 @@ def SSt.dump (s : SSt) : String :=
   let w := walk (fun e => s.next.get e) walkCap s.head
   s!"{s.len} h={showPtr s.head} t={showPtr s.tail} n{showWalk w toString} v{showWalk w fun e => toString (s.val.get e)}"
 
+/-- Dump of a long list: `<len> h= t= n~<n>:<hash of ids via Next> v~<n>:<hash of values>`. -/
+def SSt.dumpBig (s : SSt) : String :=
+  let nx := fun e => s.next.get e
+  let n := walkFold nx (digestStep fun e => (e : Int)) bigCap s.head (0, 0)
+  let v := walkFold nx (digestStep fun e => s.val.get e) bigCap s.head (0, 0)
+  s!"{s.len} h={showPtr s.head} t={showPtr s.tail} n~{showDigest n} v~{showDigest v}"
+
 def SSt.parseHandle (s : SSt) (t : String) : Option Nat :=
   match t.toNat? with
   | some h => if h < s.fresh then some h else none
@@ -209,19 +216,54 @@ def SSt.step (s : SSt) (ts : List String) : Option (Option (SSt × String)) := d
   let op ← parseSOp s ts
   pure ((s.apply op).map fun (s1, r) => (s1, showRes r))
 
-def runSOps : Option SSt → List String → List String
-  | _, [] => []
-  | none, _ :: ls => "dead" :: runSOps none ls
-  | some s, l :: ls =>
-    match s.step (toks l) with
-    | none => "bad-op" :: runSOps (some s) ls
-    | some none => "panic" :: runSOps none ls
-    | some (some (s1, out)) => (out ++ " | " ++ s1.dump) :: runSOps (some s1) ls
+/-- Bulk line `pushn k`: `k` times `PushBack(i % 10)` = `k` applications of `SSt.apply`. -/
+def SSt.pushN : Nat → Nat → SSt → Option SSt
+  | 0, _, s => some s
+  | k + 1, i, s => do
+    let (s1, _) ← s.apply (.pushBack ((i % 10 : Nat) : Int))
+    SSt.pushN k (i + 1) s1
 
-/-- Header `@ C13 slist`. -/
+/-- Bulk line `removen k`: `k` times `RemoveFront()`; `removeln k`: `k` times `Remove(Len()-1)`. -/
+def SSt.removeN (last : Bool) : Nat → SSt → Option SSt
+  | 0, s => some s
+  | k + 1, s => do
+    let (s1, _) ← s.apply (if last then .remove (s.len - 1) else .removeFront)
+    SSt.removeN last k s1
+
+def SSt.stepBulk (s : SSt) (ts : List String) : Option (Option (SSt × String)) :=
+  match ts with
+  | ["pushn", k] => do
+    let k ← k.toNat?
+    pure ((SSt.pushN k 0 s).map fun s1 => (s1, "ok"))
+  | ["removen", k] => do
+    let k ← k.toNat?
+    pure ((SSt.removeN false k s).map fun s1 => (s1, "ok"))
+  | ["removeln", k] => do
+    let k ← k.toNat?
+    pure ((SSt.removeN true k s).map fun s1 => (s1, "ok"))
+  | _ => s.step ts
+
+def runSOps (big : Bool) : Option SSt → List String → List String
+  | _, [] => []
+  | none, _ :: ls => "dead" :: runSOps big none ls
+  | some s, l :: ls =>
+    match s.stepBulk (toks l) with
+    | none => "bad-op" :: runSOps big (some s) ls
+    | some none => "panic" :: runSOps big none ls
+    | some (some (s1, out)) =>
+      (out ++ " | " ++ (if big then s1.dumpBig else s1.dump)) :: runSOps big (some s1) ls
+
+/-- Header `@ C13 slist [z|n] [big]` (`z` = `new(SList)`, `n` = `NewSingly()`: the same state). -/
 def runSListCase (hdr : List String) (ops : List String) : List String :=
+  let go (big : Bool) : List String :=
+    ("ok | " ++ (if big then SSt.zero.dumpBig else SSt.zero.dump)) :: runSOps big (some SSt.zero) ops
   match hdr with
-  | [] => ("ok | " ++ SSt.zero.dump) :: runSOps (some SSt.zero) ops
+  | [] => go false
+  | ["z"] => go false
+  | ["n"] => go false
+  | ["big"] => go true
+  | ["z", "big"] => go true
+  | ["n", "big"] => go true
   | _ => "bad-op" :: ops.map fun _ => "bad-op"
 
 end Golib.C13
